@@ -33,8 +33,10 @@ CONSTANTS
   Bug_DeletePending,     \* obsolete-file deletion ignores outputs under construction
   Bug_DeletePinned,      \* obsolete-file deletion ignores pinned versions
   Bug_ImmDropEarly,      \* immutable memtable dropped before the new version is installed
-  Bug_FlushDeepDuringCompaction \* a memtable flushed while a table compaction runs may be pushed
+  Bug_FlushDeepDuringCompaction, \* a memtable flushed while a table compaction runs may be pushed
                          \* below level 0 (into a gap between the compaction's inputs)
+  Bug_ExpandKeepsParents \* the compaction-level inputs are expanded although the wider range
+                         \* overlaps more parent files (which are then left out)
 
 VARIABLES
   nk,        \* number of keys in use (= NK here; set per run in trace validation)
@@ -167,6 +169,20 @@ Inputs0(l, f) == Boundary(l, IF l = 0 THEN L0Close({f}) ELSE {f})
 Inputs1(l, S0) ==
   Boundary(l + 1, {g \in LvlSet(cur, l + 1) : UOverlap(g, RangeLo(S0), RangeHi(S0))})
 
+\* finalize_compaction_inputs, second half: "see if we can grow the number of inputs in the
+\* compaction level without adding more files from the parent level": every file of the level
+\* that overlaps the range of ALL inputs so far is taken as well, provided the parent files
+\* overlapping the wider range are still the same ones.  Either choice is legal.
+InputChoices(l, S0, S1) ==
+  IF S1 = {} THEN {<<S0, S1>>}
+  ELSE LET all == S0 \cup S1
+           W == {f \in LvlSet(cur, l) : UOverlap(f, RangeLo(all), RangeHi(all))} \cup S0
+           E0 == Boundary(l, IF l = 0 THEN L0Close(W) ELSE W)
+           E1 == Boundary(l + 1, {g \in LvlSet(cur, l + 1) : UOverlap(g, RangeLo(E0), RangeHi(E0))}) IN
+       IF Cardinality(E0) > Cardinality(S0) /\ (Bug_ExpandKeepsParents \/ E1 = S1)
+       THEN {<<S0, S1>>, <<E0, S1>>}
+       ELSE {<<S0, S1>>}
+
 \* is_base_level_for_key: no file in levels >= l+2 whose recorded user-key range contains k
 BaseLevel(l, k) ==
   \A j \in (l + 2)..(NL - 1) : \A f \in LvlSet(cur, j) : ~(f.lo[1] <= k /\ k <= f.hi[1])
@@ -267,8 +283,9 @@ RemoveObsolete ==
 \* smallest snapshot captured
 CompactPick(l, f) ==
   /\ ~gcDue /\ ~comp.on /\ l < NL - 1 /\ f \in LvlSet(cur, l)
-  /\ LET S0 == Inputs0(l, f)
-         S1 == Inputs1(l, S0)
+  /\ \E pr \in InputChoices(l, Inputs0(l, f), Inputs1(l, Inputs0(l, f))) :
+     LET S0 == pr[1]
+         S1 == pr[2]
          E == UNION {EntsOf(files, g.no) : g \in S0 \cup S1}
          small == SetMin(Live) IN
      \E K \in (IF KeepExtra THEN {MustKeep(E, l, small), E} ELSE {MustKeep(E, l, small)}) :
@@ -286,8 +303,9 @@ ManualInputs0(l, lo, hi) ==
 CompactPickRange(l, lo, hi) ==
   /\ ~gcDue /\ ~comp.on /\ l < NL - 1 /\ lo <= hi
   /\ ManualInputs0(l, lo, hi) # {}
-  /\ LET S0 == ManualInputs0(l, lo, hi)
-         S1 == Inputs1(l, S0)
+  /\ \E pr \in InputChoices(l, ManualInputs0(l, lo, hi), Inputs1(l, ManualInputs0(l, lo, hi))) :
+     LET S0 == pr[1]
+         S1 == pr[2]
          E == UNION {EntsOf(files, g.no) : g \in S0 \cup S1}
          small == SetMin(Live) IN
      comp' = [on |-> TRUE, lvl |-> l, in0 |-> {g.no : g \in S0}, in1 |-> {g.no : g \in S1},
